@@ -44,7 +44,8 @@ TECHNIQUE = ("complete enumeration of 2 sites x 2 objects placements + Hypothesi
              "oracle = spec-derived must-reject predicate and driver sets recomputed from the emitted VHDL by cv.vhdl")
 RULE = (
     "PlacementSpec: objects (Signal, out Port, in Port, Variable, intermediate) x accessors (whole, static slice, "
-    "element, run-time element) x sites (sequential, concurrent, always-block, instance, inline instance, std.block); "
+    "element, run-time element) x sites (sequential, concurrent, always-block, instance, inline instance, std.block, "
+    "n same-definition contexts, instances with >= 2 outputs on one root); "
     "non-trivial = spec with >= 2 writer sites of one object (expected rejection) or an accepted spec in which >= 2 "
     "sites touch the same object; distinct = case hash"
 )
@@ -55,6 +56,9 @@ ASSUMPTIONS = [
     "are not a must-reject case of oracle (a); oracle (b) still applies to the emitted text",
     "an instance output associated with an input port of the enclosing entity counts as `an input port is written`",
     "std.block raises TypeError at the pinned commit, so the nested-block site is generated but always rejected",
+    "same-definition contexts (loop / factory around one decorated def) are distinct contexts: n copies = n sites",
+    "two output ports of one instance on one root: overlapping actuals must be rejected; disjoint slices/elements carry "
+    "no expectation (cohdl rejects them at root level, counted as rejected_but_should_accept)",
 ]
 
 OBJ_KINDS = ["sig", "out", "in", "var", "tmp"]
@@ -120,7 +124,7 @@ def _useless(case):
 def plan(tier):
     total = sum(1 for _ in _enum_space())
     if tier == "quick":
-        stride, nsh, per, nh = 40, 8, 150, 8
+        stride, nsh, per, nh = 80, 8, 120, 8
     else:
         stride, nsh, per, nh = 1, 32, 1500, 16
     n = (total + stride - 1) // stride
